@@ -33,7 +33,10 @@ RULE = (
     "spelling {class, np.dtype} x input kind {ndarray, ImageStack} x value pattern {ramp with pairwise distinct values, scale end points 0/1/max and neighbours}. "
     "raster: every ST(n) n<=4 (thorough 6) on a compact tie-free geometry bank, plus single edges radii {0.3,0.6,1.2,2.0}^2 x length "
     "{0,0.5,0.9,1.4,3} x 4 directions; x resolutions {1,0.5,0.25,(1,0.5,0.25),(0.25,1,0.5),2} x {bounding box, explicit ranges}; "
-    "every voxel judged. Distinct = distinct case tuple; non-trivial = more than one voxel resp. at least one edge."
+    "every voxel judged; unsorted numberings LT(n) n<=4 (5) included. Histories: every ordered pair (thorough: triple) of 9 save/load "
+    "configurations saved in a row and read back, every ordered pair (triple) of 8 trees through one transform object, and every "
+    "(tree, node, move / radius edit, edit route) rasterised before and after the in-place edit; every file is read twice. "
+    "Distinct = distinct case tuple; non-trivial = more than one voxel resp. at least one edge."
 )
 ASSUMPTIONS = [
     "float->uint conversion may truncate or round: the result must lie within one level of v*max; uint->float within 4 eps32 (relative) of v/max; "
@@ -123,15 +126,11 @@ def io_cases(sizes, thorough):
                                         yield (shape, src, fmt, sv, rd, sp, kind, "extremes")
 
 
-def check_io(case, R):
-    from swcgeom.images.io import NDArrayImageStack, read_imgs, save_tiff
-
-    shape, src, fmt, sv, rd, sp, kind, pattern = case
+def io_model(cfg):
+    """cfg = (shape, src, fmt, sv, rd, sp, kind, pattern) -> input array and the interval model of what a read returns."""
+    shape, src, fmt, sv, rd, sp, kind, pattern = cfg
     shape = tuple(int(v) for v in shape)
     a = ramp(shape, src, pattern)
-    R.state(shape, src, fmt, sv, pattern)
-    if int(np.prod(shape)) == 1:
-        R.trivial()
     want_shape = shape if len(shape) == 4 else shape + (1,)
     ideal = a.astype(np.float64).reshape(want_shape)
     tol, rel = 0.0, 0.0
@@ -141,59 +140,145 @@ def check_io(case, R):
         stored = sv
     rdt = "float32" if rd == "default" else rd
     ideal, tol, rel = convert_model(ideal, tol, rel, stored, rdt)
-    R.outcome(src, sv, rdt, len(shape), tuple(int(v == 1) for v in want_shape))
+    return {"a": a, "want_shape": want_shape, "ideal": ideal, "tol": tol, "rel": rel, "stored": stored, "rdt": rdt,
+            "ext": {"tif-zlib": "tif", "tif-raw": "tif", "nrrd": "nrrd", "npy": "npy"}[fmt]}
 
+
+def io_save(R, cfg, M, fn):
+    from swcgeom.images.io import NDArrayImageStack, save_tiff
+
+    shape, src, fmt, sv, rd, sp, kind, pattern = cfg
+    a = M["a"]
+    a0 = a.copy()
+    if M["ext"] == "tif":
+        data = a if kind == "ndarray" else NDArrayImageStack(a)
+        kw = {}
+        if sv is not None:
+            kw["dtype"] = getattr(np, sv)
+        if fmt == "tif-raw":
+            kw["compression"] = False
+        ok, _ = R.impl("save_tiff", lambda: save_tiff(data, fn, **kw), klass=f"raises:save_tiff:{src}->{sv}")
+        if not ok:
+            return False
+    elif M["ext"] == "nrrd":
+        import nrrd
+
+        nrrd.write(fn, a)
+    else:
+        np.save(fn, a)
+    R.check(np.array_equal(a, a0) and a.dtype == a0.dtype, "save:input-modified", lambda: f"{cfg}")
+    return True
+
+
+def io_judge(R, cfg, M, got, what=""):
+    shape, src, fmt, sv, rd, sp, kind, pattern = cfg
+    want_shape, ideal, tol, rel, stored, rdt, ext = M["want_shape"], M["ideal"], M["tol"], M["rel"], M["stored"], M["rdt"], M["ext"]
+    got = np.asarray(got)
+    if not R.check(tuple(got.shape) == want_shape, "read:shape", lambda: f"{what}{cfg}: got shape {got.shape}, want {want_shape}", f"read:shape:{ext}"):
+        return False
+    R.check(got.dtype == np.dtype(rdt), "read:dtype", lambda: f"{what}{cfg}: got dtype {got.dtype}, asked for {rdt}", f"read:dtype:{stored}->{rdt}")
+    g = got.astype(np.float64)
+    bound = tol + rel * np.abs(ideal)
+    bad = np.abs(g - ideal) > bound
+    kk = f"read:values:{ext}:" + ("same" if stored == rdt and sv is None else f"{src}->{sv or src}->{rdt}")
+    return R.check(not bool(bad.any()), "read:values",
+                   lambda: f"{what}{cfg}: {int(bad.sum())} of {bad.size} voxels differ; first at {tuple(int(v) for v in np.argwhere(bad)[0])}: "
+                   f"got {g[tuple(np.argwhere(bad)[0])]!r}, want {ideal[tuple(np.argwhere(bad)[0])]!r} +- {float(np.max(bound)):.3g}", kk)
+
+
+def io_read(R, cfg, M, fn, what=""):
+    """read_imgs + get_full, judged; returns (stack, array) or None."""
+    from swcgeom.images.io import read_imgs
+
+    shape, src, fmt, sv, rd, sp, kind, pattern = cfg
+    stored, rdt = M["stored"], M["rdt"]
+    kw = {}
+    if rd != "default":
+        kw["dtype"] = getattr(np, rd) if sp == "class" else np.dtype(rd)
+    ok, st = R.impl("read_imgs", lambda: read_imgs(fn, **kw),
+                    klass=None if stored == rdt else f"raises:read_imgs:{'float' if not _is_uint(stored) else 'uint'}->{'uint' if _is_uint(rdt) else 'float'}")
+    if not ok:
+        return None
+    ok, got = R.impl("get_full", st.get_full)
+    if not ok:
+        return None
+    if not io_judge(R, cfg, M, got, what):
+        return None
+    return st, np.asarray(got)
+
+
+def check_io(case, R):
+    cfg = tuple(case)
+    shape, src, fmt, sv, rd, sp, kind, pattern = cfg
+    M = io_model(cfg)
+    R.state(tuple(shape), src, fmt, sv, pattern)
+    if int(np.prod(shape)) == 1:
+        R.trivial()
+    want_shape = M["want_shape"]
+    R.outcome(src, sv, M["rdt"], len(shape), tuple(int(v == 1) for v in want_shape))
     d = tempfile.mkdtemp(prefix="c20io")
     try:
-        a0 = a.copy()
-        ext = {"tif-zlib": "tif", "tif-raw": "tif", "nrrd": "nrrd", "npy": "npy"}[fmt]
-        fn = os.path.join(d, "stack." + ext)
-        if ext == "tif":
-            data = a if kind == "ndarray" else NDArrayImageStack(a)
-            kw = {}
-            if sv is not None:
-                kw["dtype"] = getattr(np, sv)
-            if fmt == "tif-raw":
-                kw["compression"] = False
-            ok, _ = R.impl("save_tiff", lambda: save_tiff(data, fn, **kw), klass=f"raises:save_tiff:{src}->{sv}")
-            if not ok:
-                return
-        elif ext == "nrrd":
-            import nrrd
-
-            nrrd.write(fn, a)
-        else:
-            np.save(fn, a)
-        R.check(np.array_equal(a, a0) and a.dtype == a0.dtype, "save:input-modified", lambda: f"{case}")
-
-        kw = {}
-        if rd != "default":
-            kw["dtype"] = getattr(np, rd) if sp == "class" else np.dtype(rd)
-        conv = f"{stored}->{rdt}"
-        ok, st = R.impl("read_imgs", lambda: read_imgs(fn, **kw), klass=None if stored == rdt else f"raises:read_imgs:{'float' if not _is_uint(stored) else 'uint'}->{'uint' if _is_uint(rdt) else 'float'}")
-        if not ok:
+        fn = os.path.join(d, "stack." + M["ext"])
+        if not io_save(R, cfg, M, fn):
             return
-        ok, got = R.impl("get_full", st.get_full)
-        if not ok:
+        res = io_read(R, cfg, M, fn)
+        if res is None:
             return
-        got = np.asarray(got)
-        if not R.check(tuple(got.shape) == want_shape, "read:shape", lambda: f"{case}: got shape {got.shape}, want {want_shape}", f"read:shape:{ext}"):
-            return
+        st, got = res
+        R.retain("get_full", lambda g=got: g)
         R.check(tuple(st.shape) == want_shape, "read:shape-property", lambda: f"{case}: .shape {st.shape}, want {want_shape}")
-        R.check(got.dtype == np.dtype(rdt), "read:dtype", lambda: f"{case}: got dtype {got.dtype}, asked for {rdt}", f"read:dtype:{conv}")
-        g = got.astype(np.float64)
-        err = np.abs(g - ideal)
-        bound = tol + rel * np.abs(ideal)
-        bad = err > bound
-        kk = f"read:values:{ext}:" + ("same" if stored == rdt and sv is None else f"{src}->{sv or src}->{rdt}")
-        R.check(not bool(bad.any()), "read:values",
-                lambda: f"{case}: {int(bad.sum())} of {bad.size} voxels differ; first at {tuple(int(v) for v in np.argwhere(bad)[0])}: "
-                f"got {g[tuple(np.argwhere(bad)[0])]!r}, want {ideal[tuple(np.argwhere(bad)[0])]!r} +- {float(np.max(bound)):.3g}", kk)
         # element access agrees with the full array
         idx = tuple(v - 1 for v in want_shape)
         ok, one = R.impl("getitem", lambda: st[idx])
         if ok:
             R.check(float(one) == float(got[idx]), "read:getitem", lambda: f"{case}: stack{idx} = {one!r}, full array has {got[idx]!r}")
+        # reading the same file a second time gives the same answer and leaves the first answer alone
+        first = got.copy()
+        res2 = io_read(R, cfg, M, fn, "second read of ")
+        if res2 is not None:
+            R.check(np.array_equal(res2[1], first) and np.array_equal(got, first), "read:twice",
+                    lambda: f"{case}: a second read_imgs of the same file differs from, or changed, the first result")
+    finally:
+        shutil.rmtree(d, ignore_errors=True)
+
+
+# configurations for call histories: different shapes, dtypes, formats, conversions
+HISTORY_CFGS = (
+    ([2, 3, 1], "uint8", "tif-zlib", None, "default", "class", "ndarray", "ramp"),
+    ([2, 3, 1], "uint8", "tif-zlib", None, "uint8", "class", "ndarray", "extremes"),
+    ([3, 2, 2, 3], "float32", "tif-zlib", None, "default", "class", "ndarray", "ramp"),
+    ([3, 2, 2, 3], "float32", "tif-raw", None, "uint8", "instance", "ndarray", "ramp"),
+    ([1, 1, 1], "float64", "tif-zlib", "uint16", "default", "class", "stack", "ramp"),
+    ([1, 2, 3, 1], "uint16", "tif-zlib", "float32", "float64", "class", "ndarray", "ramp"),
+    ([2, 3, 1], "float32", "nrrd", None, "uint8", "class", "ndarray", "ramp"),
+    ([3, 2, 2, 3], "uint8", "npy", None, "default", "class", "ndarray", "ramp"),
+    ([2, 2, 2], "float32", "npy", None, "float32", "instance", "ndarray", "extremes"),
+)
+
+
+def check_io_history(case, R):
+    """Several stacks saved in a row, then read back in every order position: each read is judged against its own
+    model, and every array returned earlier is re-inspected after the later saves / reads."""
+    seq = [tuple(HISTORY_CFGS[int(i)]) for i in case]
+    R.state(tuple(case))
+    R.outcome(tuple(case))
+    d = tempfile.mkdtemp(prefix="c20hist")
+    try:
+        files = []
+        for k, cfg in enumerate(seq):
+            M = io_model(cfg)
+            fn = os.path.join(d, f"s{k}." + M["ext"])
+            if not io_save(R, cfg, M, fn):
+                return
+            files.append((cfg, M, fn))
+        live = []
+        for k, (cfg, M, fn) in enumerate(files + files[:1]):
+            res = io_read(R, cfg, M, fn, f"history {list(case)} read #{k}: ")
+            if res is not None:
+                live.append((cfg, M, res[1], res[1].copy()))
+        for cfg, M, arr, first in live:
+            R.check(np.array_equal(arr, first), "read:result-changed-by-later-calls", lambda: f"history {list(case)}: array read for {cfg} changed afterwards")
+            io_judge(R, cfg, M, arr, f"history {list(case)} re-inspected: ")
     finally:
         shutil.rmtree(d, ignore_errors=True)
 
@@ -305,31 +390,15 @@ def edge_class(xyz, r, edges):
     return cls
 
 
-def check_raster(case, R):
-    from swcgeom.images.io import read_imgs
-    from swcgeom.transforms import ToImageStack
-
-    p, xyz, r = raster_geometry(case)
-    res = case[-2]
-    ranged = bool(case[-1])
-    n = len(p)
-    edges = ref.edges(p)
-    if not edges:
-        R.trivial()
-    res3 = [float(v) for v in res] if isinstance(res, (list, tuple)) else [float(res)] * 3
-    res_arg = tuple(res) if isinstance(res, (list, tuple)) else res
-    cls = edge_class(xyz, r, edges)
-    R.state(case[:-2])
-
-    # ---- reference bounding box (floor/ceil of coordinate -+ radius), ties excluded
+def raster_box(R, xyz, r, res3, ranged):
+    """Reference bounding box and voxel counts, or None when the reference declares the case a tie."""
     lo, hi = [], []
     for c in range(3):
         mn = min(q[c] - rr for q, rr in zip(xyz, r))
         mx = max(q[c] + rr for q, rr in zip(xyz, r))
         if abs(mn - round(mn)) < 1e-4 or abs(mx - round(mx)) < 1e-4:
             R.skip("bounding-box-face-on-integer")
-            R.trivial()
-            return
+            return None
         lo.append(math.floor(mn))
         hi.append(math.ceil(mx))
     if ranged:
@@ -340,10 +409,74 @@ def check_raster(case, R):
         q = (hi[c] - lo[c]) / res3[c]
         if abs(q - round(q)) > 1e-9:
             R.skip("box-not-multiple-of-resolution")
-            R.trivial()
-            return
+            return None
         counts.append(int(round(q)))
+    return lo, hi, counts
+
+
+def judge_raster(R, label, p, xyz, r, res3, box, img):
+    """Shape and every voxel of a (Z, X, Y) stack against the closed-form union of round cones."""
+    lo, hi, counts = box
+    edges = ref.edges(p)
+    cls = edge_class(xyz, r, edges)
     want_shape = (counts[2], counts[0], counts[1])
+    img = np.asarray(img)
+    if not R.check(img.ndim == 3 and tuple(img.shape) == want_shape, "raster:shape",
+                   lambda: f"{label}: stack shape {img.shape}, want (Z,X,Y) = {want_shape} for box {lo}..{hi} at resolution {res3}"):
+        return False
+    cx = [lo[c] + res3[c] / 2 + np.arange(counts[c]) * res3[c] for c in range(3)]
+    Zg, Xg, Yg = np.meshgrid(cx[2], cx[0], cx[1], indexing="ij")
+    P = np.stack([Xg.ravel(), Yg.ravel(), Zg.ravel()], axis=1)
+    m = np.full(len(P), np.inf)  # no parent-child pair: the union of cones is empty
+    for i, j in edges:
+        m = np.minimum(m, margin_np(P, xyz[i], xyz[j], r[i], r[j]))
+    lit = (img != 0).ravel()
+    near = np.abs(m) < 1e-3
+    R.skip("voxel-near-surface", int(near.sum()))
+    wrong = (lit != (m < 0)) & ~near
+    R.outcome(cls, len(p), int(lit.sum()) > 0, int((~lit).sum()) > 0, tuple(res3))
+    R.note("voxels", len(P))
+    R.note("voxels-lit", int(lit.sum()))
+    good = True
+    if bool(wrong.any()):
+        k0 = int(np.argmax(wrong))
+        R.fail("raster:lit",
+               f"{label}: {int(wrong.sum())} of {len(P)} voxels wrong ({cls}); e.g. centre {tuple(float(v) for v in P[k0])} "
+               f"margin {float(m[k0]):+.4f} lit={bool(lit[k0])}; nodes {list(zip(xyz, r))}", f"raster:lit:{cls}")
+        good = False
+    # oracle cross-check on a subsample (harness self-check, raises on disagreement)
+    if edges:
+        for k0 in range(0, len(P), max(1, len(P) // 12)):
+            ms = min(margin_scalar([float(v) for v in P[k0]], xyz[i], xyz[j], r[i], r[j]) for i, j in edges)
+            if abs(ms - float(m[k0])) > 1e-7:
+                raise AssertionError(f"harness bug: closed-form margin {float(m[k0])!r} vs ternary search {ms!r} at {P[k0]} for {label}")
+    vals = set(np.unique(img).tolist())
+    good &= R.check(img.dtype == np.uint8 and vals <= {0, 255}, "raster:values", lambda: f"{label}: dtype {img.dtype}, values {sorted(vals)[:6]}")
+    return good
+
+
+def _res3(res):
+    return ([float(v) for v in res] if isinstance(res, (list, tuple)) else [float(res)] * 3), (tuple(res) if isinstance(res, (list, tuple)) else res)
+
+
+def check_raster(case, R):
+    from swcgeom.images.io import read_imgs
+    from swcgeom.transforms import ToImageStack
+
+    p, xyz, r = raster_geometry(case)
+    res = case[-2]
+    ranged = bool(case[-1])
+    edges = ref.edges(p)
+    if not edges:
+        R.trivial()
+    res3, res_arg = _res3(res)
+    cls = edge_class(xyz, r, edges)
+    R.state(case[:-2])
+    box = raster_box(R, xyz, r, res3, ranged)
+    if box is None:
+        R.trivial()
+        return
+    lo, hi, counts = box
 
     t = build.make_tree(p, xyz=xyz, r=r)
     snap = build.snapshot(t)
@@ -356,40 +489,9 @@ def check_raster(case, R):
     if not ok:
         return
     img = np.asarray(img)
-    if not R.check(img.ndim == 3 and tuple(img.shape) == want_shape, "raster:shape",
-                   lambda: f"{case}: stack shape {img.shape}, want (Z,X,Y) = {want_shape} for box {lo}..{hi} at resolution {res3}"):
+    R.retain("ToImageStack", lambda g=img: g)
+    if not judge_raster(R, f"{case}", p, xyz, r, res3, box, img) and img.shape != (counts[2], counts[0], counts[1]):
         return
-
-    # ---- every voxel
-    cx = [lo[c] + res3[c] / 2 + np.arange(counts[c]) * res3[c] for c in range(3)]
-    Zg, Xg, Yg = np.meshgrid(cx[2], cx[0], cx[1], indexing="ij")
-    P = np.stack([Xg.ravel(), Yg.ravel(), Zg.ravel()], axis=1)
-    if edges:
-        m = np.full(len(P), np.inf)
-        for i, j in edges:
-            m = np.minimum(m, margin_np(P, xyz[i], xyz[j], r[i], r[j]))
-    else:
-        m = np.full(len(P), np.inf)  # no parent-child pair: the union of cones is empty
-    lit = (img != 0).ravel()
-    near = np.abs(m) < 1e-3
-    R.skip("voxel-near-surface", int(near.sum()))
-    wrong = (lit != (m < 0)) & ~near
-    R.outcome(cls, n, int(lit.sum()) > 0, int((~lit).sum()) > 0, tuple(res3), ranged)
-    R.note("voxels", len(P))
-    R.note("voxels-lit", int(lit.sum()))
-    if bool(wrong.any()):
-        k0 = int(np.argmax(wrong))
-        R.fail("raster:lit",
-               f"{case}: {int(wrong.sum())} of {len(P)} voxels wrong ({cls}); e.g. centre {tuple(float(v) for v in P[k0])} "
-               f"margin {float(m[k0]):+.4f} lit={bool(lit[k0])}; nodes {list(zip(xyz, r))}", f"raster:lit:{cls}")
-    # oracle cross-check on a subsample (harness self-check, raises on disagreement)
-    if edges:
-        for k0 in range(0, len(P), max(1, len(P) // 12)):
-            ms = min(margin_scalar([float(v) for v in P[k0]], xyz[i], xyz[j], r[i], r[j]) for i, j in edges)
-            if abs(ms - float(m[k0])) > 1e-7:
-                raise AssertionError(f"harness bug: closed-form margin {float(m[k0])!r} vs ternary search {ms!r} at {P[k0]} for {case}")
-    vals = set(np.unique(img).tolist())
-    R.check(img.dtype == np.uint8 and vals <= {0, 255}, "raster:values", lambda: f"{case}: dtype {img.dtype}, values {sorted(vals)[:6]}")
     R.check(build.snapshot(t) == snap, "input-modified", lambda: f"{case}")
 
     # ---- transform_and_save + read_imgs reproduces the stack as (X, Y, Z, 1)
@@ -411,9 +513,136 @@ def check_raster(case, R):
             shutil.rmtree(d, ignore_errors=True)
 
 
-def raster_cases(st_hi, banks, with_edges, resolutions):
-    for n in range(1, st_hi + 1):
-        for p in S.sorted_trees(n):
+# ------------------------------------------------------------------ raster call histories
+
+# small trees for histories: (parent list, bank) / single edges incl. a nested one and a one-voxel-thick one
+HIST_TREES = (
+    ("tree", [-1], 0),
+    ("tree", [-1, 0], 1),
+    ("tree", [-1, 0, 0], 2),
+    ("tree", [-1, 2, 0], 0),  # unsorted numbering
+    ("tree", [-1, 0, 1, 1], 3),
+    ("edge", 2.0, 0.3, 0.9, 3),  # nested end spheres
+    ("edge", 0.3, 0.3, 3.0, 0),  # one voxel thick at resolution 1
+    ("edge", 0.6, 1.2, 1.4, 2),
+)
+HIST_RES = (1, 0.5, (1, 0.5, 0.25))
+RASTER_EDITS = ("move", "radius", "move-root")
+EDIT_HOWS = ("handle", "column", "copy-then-handle")
+
+
+def check_raster_history(case, R):
+    """One ToImageStack object applied to a sequence of trees (the first one again at the end): every stack is judged
+    when returned and re-inspected after the later calls."""
+    from swcgeom.transforms import ToImageStack
+
+    idxs, res = [int(i) for i in case[0]], case[1]
+    res3, res_arg = _res3(res)
+    R.state(tuple(idxs), res3)
+    tr = ToImageStack(res_arg)
+    built = {}
+    live = []
+    for k, i in enumerate(idxs + idxs[:1]):
+        ht = HIST_TREES[i]
+        p, xyz, r = raster_geometry(tuple(ht) + (res, 0))
+        if i not in built:
+            built[i] = build.make_tree(p, xyz=xyz, r=r)
+        box = raster_box(R, xyz, r, res3, False)
+        if box is None:
+            continue
+        ok, img = R.impl("ToImageStack", lambda: tr(built[i]), klass=f"raises:ToImageStack:history")
+        if not ok:
+            continue
+        img = np.asarray(img)
+        if judge_raster(R, f"history {case} call #{k} on {ht}", p, xyz, r, res3, box, img):
+            live.append((k, ht, p, xyz, r, box, img, img.copy()))
+    for k, ht, p, xyz, r, box, img, first in live:
+        R.check(np.array_equal(img, first), "raster:result-changed-by-later-calls", lambda: f"history {case}: stack of call #{k} ({ht}) changed afterwards")
+
+
+def check_raster_edit(case, R):
+    """Rasterise, edit the tree in place (move a node, change a radius), rasterise again with the same transform: the
+    second stack must describe the edited tree; with 'copy-then-handle' the original must still give the old stack."""
+    from swcgeom.transforms import ToImageStack
+
+    i_tree, res, edit, node, how = int(case[0]), case[1], case[2], int(case[3]), case[4]
+    ht = HIST_TREES[i_tree]
+    p, xyz, r = raster_geometry(tuple(ht) + (res, 0))
+    n = len(p)
+    res3, res_arg = _res3(res)
+    R.state(i_tree, res3, edit, node)
+    xyz2, r2 = [tuple(q) for q in xyz], list(r)
+    if edit == "radius":
+        r2[node] = build.f32(r[node] * 0.5 + 0.17)
+    else:
+        shift = (0.6, -0.35, 0.45)
+        xyz2[node] = tuple(build.f32(xyz[node][c] + shift[c]) for c in range(3))
+    tr = ToImageStack(res_arg)
+    t = build.make_tree(p, xyz=xyz, r=r)
+    box1 = raster_box(R, xyz, r, res3, False)
+    ok, img1 = R.impl("ToImageStack", lambda: tr(t))
+    if ok and box1 is not None:
+        judge_raster(R, f"edit {case} before", p, xyz, r, res3, box1, img1)
+    target = t.copy() if how == "copy-then-handle" else t
+    if how == "column":
+        if edit == "radius":
+            target.r()[node] = r2[node]
+        else:
+            for c, col in enumerate((target.x(), target.y(), target.z())):
+                col[node] = xyz2[node][c]
+    else:
+        nd = target.node(node)
+        if edit == "radius":
+            nd.r = r2[node]
+        else:
+            nd.x, nd.y, nd.z = xyz2[node]
+    # what the object now holds (the edit itself is C09's business; here it only has to have happened)
+    now_xyz = [tuple(float(v) for v in row) for row in zip(target.x().tolist(), target.y().tolist(), target.z().tolist())]
+    now_r = [float(v) for v in target.r().tolist()]
+    if now_xyz != [tuple(float(v) for v in q) for q in xyz2] or now_r != [float(v) for v in r2]:
+        R.skip("edit-not-applied-by-this-route")
+        return
+    box2 = raster_box(R, xyz2, r2, res3, False)
+    ok, img2 = R.impl("ToImageStack", lambda: tr(target))
+    if ok and box2 is not None:
+        judge_raster(R, f"edit {case} after the edit", p, xyz2, r2, res3, box2, img2)
+    if how == "copy-then-handle" and box1 is not None:
+        ok, img3 = R.impl("ToImageStack", lambda: tr(t))
+        if ok:
+            judge_raster(R, f"edit {case} original after editing its copy", p, xyz, r, res3, box1, img3)
+
+
+def raster_history_cases(depth):
+    n = len(HIST_TREES)
+    for res in HIST_RES:
+        for seq in itertools.product(range(n), repeat=depth):
+            if len(set(seq)) == 1 and depth > 1:
+                continue
+            yield (list(seq), list(res) if isinstance(res, tuple) else res)
+
+
+def raster_edit_cases():
+    for i, ht in enumerate(HIST_TREES):
+        n = len(ht[1]) if ht[0] == "tree" else 2
+        for res in HIST_RES:
+            for edit in RASTER_EDITS:
+                nodes = [0] if edit == "move-root" else list(range(n))
+                for node in nodes:
+                    for how in EDIT_HOWS:
+                        yield (i, list(res) if isinstance(res, tuple) else res, edit, node, how)
+
+
+def raster_cases(st_hi, banks, with_edges, resolutions, lt_hi=4):
+    def tables():
+        for n in range(1, st_hi + 1):
+            yield from S.sorted_trees(n)
+        for n in range(3, lt_hi + 1):  # unsorted but well-formed numberings
+            for p in S.labelled_trees(n):
+                if not ref.is_sorted(p):
+                    yield p
+
+    for p in tables():
+        if True:
             for b in banks:
                 for res in resolutions:
                     for ranged in (0, 1):
@@ -429,21 +658,82 @@ def raster_cases(st_hi, banks, with_edges, resolutions):
                             yield ("edge", ra, rb, L, di, res if not isinstance(res, tuple) else list(res), 0)
 
 
+
+
+# ------------------------------------------------------------------ the same histories, each in a FRESH interpreter
+
+_FRESH_CODE = """
+import sys, json, warnings
+sys.path[:0] = [sys.argv[1], sys.argv[2]]
+warnings.simplefilter("ignore")
+from mc import kernel
+from mc.props import %(mod)s as M
+seq = json.loads(sys.argv[3])
+R = kernel.Recorder("fresh", 0)
+R._begin(0, seq)
+M.%(fn)s(seq, R)
+print("RESULT" + json.dumps({k: {"count": v["count"], "kind": v["example"]["kind"], "detail": v["example"]["detail"]} for k, v in R.viol.items()}))
+"""
+
+
+def check_fresh(case, R):
+    """State that is decided by the FIRST call of a process (lazily initialised module state) is invisible to a worker
+    that has already executed other cases: run the sequence in a new interpreter and import its verdicts."""
+    import json
+    import subprocess
+    import sys
+
+    repo = os.environ.get("VERIF_REPO", "/repo")
+    root = os.path.dirname(os.path.dirname(os.path.dirname(os.path.abspath(__file__))))
+    R.state(tuple(case))
+    R.outcome(tuple(case))
+    R.trans()
+    r = subprocess.run([sys.executable, "-c", _FRESH_CODE % {"mod": 'c20', "fn": 'check_io_history'}, repo, root, json.dumps(list(case))],
+                       capture_output=True, text=True, timeout=110, env=dict(os.environ, PYTHONDONTWRITEBYTECODE="1"))
+    line = next((ln for ln in r.stdout.splitlines() if ln.startswith("RESULT")), None)
+    if line is None:
+        raise RuntimeError(f"fresh interpreter failed for {case}: exit {r.returncode}: {r.stderr[-600:]}")
+    for klass, v in json.loads(line[6:]).items():
+        for _ in range(v["count"]):
+            R.fail(v["kind"], f"in a fresh process, sequence {list(case)}: " + v["detail"], "fresh-process:" + klass)
+
+
+FRESH_CFGS = (0, 2, 5, 6, 7)  # indices into HISTORY_CFGS
+
+
 # =================================================================== spaces
 
 
 def spaces(tier, seed):
     if tier == "quick":
-        sizes, st_hi, banks = (1, 2, 3), 4, (seed % 4,)
+        sizes, st_hi, lt_hi, banks, hist_depth = (1, 2, 3), 4, 4, (seed % 4,), 2
     else:
-        sizes, st_hi, banks = (1, 2, 3, 4), 6, (0, 1, 2, 3)
+        sizes, st_hi, lt_hi, banks, hist_depth = (1, 2, 3, 4), 6, 5, (0, 1, 2, 3), 3
+
+    def io_hist():
+        for seq in itertools.product(range(len(HISTORY_CFGS)), repeat=hist_depth):
+            yield list(seq)
+
     return [
         Space.of("save-load", lambda: io_cases(sizes, tier == "thorough"), check_io,
                  bounds={"axis_sizes": list(sizes), "channels": ["3-D input", 1, 3], "dtypes": list(SAVE_DTYPES),
                          "formats": ["tif-zlib", "tif-raw", "nrrd", "npy"], "save_dtype": {k: [str(v) for v in vs] for k, vs in SAVE_DTYPES.items()},
-                         "read_dtype": {k: list(vs) for k, vs in READ_DTYPES.items()}, "spellings": ["class", "np.dtype"], "patterns": ["ramp", "extremes (not for tif-raw)"]}),
-        Space.of("raster", lambda: raster_cases(st_hi, banks, True, RESOLUTIONS), check_raster,
-                 bounds={"ST_max_nodes": st_hi, "banks": list(banks), "edge_radii": list(EDGE_R), "edge_lengths": list(EDGE_L),
+                         "read_dtype": {k: list(vs) for k, vs in READ_DTYPES.items()}, "spellings": ["class", "np.dtype"],
+                         "patterns": ["ramp", "extremes (not for tif-raw)"], "each file": "read twice"}),
+        Space.of("save-load-history", io_hist, check_io_history,
+                 bounds={"configurations": len(HISTORY_CFGS), "sequence_length": hist_depth,
+                         "history": "save all, then read all in order and the first again; earlier arrays re-inspected"}),
+        Space.of("save-load-fresh-process", lambda: (list(q) for q in itertools.permutations(FRESH_CFGS, 2 if tier == "quick" else 3)), check_fresh,
+                 bounds={"configurations": [list(HISTORY_CFGS[i]) for i in FRESH_CFGS], "sequence_length": 2 if tier == "quick" else 3,
+                         "history": "every ordered sequence of distinct configurations, each in a new interpreter"}),
+        Space.of("raster", lambda: raster_cases(st_hi, banks, True, RESOLUTIONS, lt_hi), check_raster,
+                 bounds={"ST_max_nodes": st_hi, "LT_unsorted_max_nodes": lt_hi, "banks": list(banks), "edge_radii": list(EDGE_R), "edge_lengths": list(EDGE_L),
                          "edge_directions": [list(v) for v in EDGE_DIR], "resolutions": [list(v) if isinstance(v, tuple) else v for v in RESOLUTIONS],
                          "ranges": ["bounding box", "explicit (box grown by 1 below, 2 above)"]}),
+        Space.of("raster-history", lambda: raster_history_cases(hist_depth), check_raster_history,
+                 bounds={"trees": len(HIST_TREES), "resolutions": [list(v) if isinstance(v, tuple) else v for v in HIST_RES],
+                         "sequence_length": hist_depth, "history": "one transform object, every ordered sequence, first tree again at the end"}),
+        Space.of("raster-edit", raster_edit_cases, check_raster_edit,
+                 bounds={"trees": len(HIST_TREES), "edits": list(RASTER_EDITS), "routes": list(EDIT_HOWS), "nodes": "every node",
+                         "resolutions": [list(v) if isinstance(v, tuple) else v for v in HIST_RES]}),
     ]
